@@ -16,7 +16,7 @@ func LangTagConverter(century int, dateFormat DateFormat) func(float64, string, 
 		TAG = 0
 		P1 = 0
 		P2 = 0
-		for ok := true; ok; ok = P1 == 0 {
+		for ok := true; ok; ok = P1 == 0 && TAG < 366 {
 			TAG++
 			verifTick("langtag14")
 			DL, _, _, _, _, _, _ := CalculateDayLenght(float64(TAG), LAT)
@@ -24,7 +24,7 @@ func LangTagConverter(century int, dateFormat DateFormat) func(float64, string, 
 				P1 = TAG
 			}
 		}
-		for ok := true; ok; ok = P2 == 0 {
+		for ok := true; ok; ok = P2 == 0 && TAG < 2*366 {
 			TAG++
 			verifTick("langtag16")
 			DL, _, _, _, _, _, _ := CalculateDayLenght(float64(TAG), LAT)
